@@ -10,6 +10,7 @@ import (
 	"encoding/json"
 	"fmt"
 	"os"
+	"os/exec"
 	"path/filepath"
 	"runtime"
 	"sort"
@@ -452,6 +453,78 @@ func vfC09gen(rt *rapid.T, maxOps int) *vfC09Case {
 	return c
 }
 
+// TestVfC09CloseProbe runs in a child process (VF_C09_PROBE=1) and reproduces the open finding
+// epoch-closed-under-inflight-read: getTransaction queries addressed to an epoch that stays loaded, while a newer
+// epoch is loaded from its configuration, replaced and removed by configuration path (what --watch does). The
+// signature search consults every loaded epoch and returns with the first hit; RemoveEpochByConfigFilepath /
+// ReplaceOrAddEpoch close the old epoch, which unmaps its index files under the searches still running on them.
+func TestVfC09CloseProbe(t *testing.T) {
+	if os.Getenv("VF_C09_PROBE") != "1" {
+		t.Skip("probe of a known finding; run by TestVfC09Stress in a child process")
+	}
+	w, err := vfC09setup()
+	if err != nil {
+		t.Fatalf("harness: %v", err)
+	}
+	// Many short-lived servers side by side: three epochs freshly loaded from their configuration files (cold
+	// mappings), one getTransaction for a signature of the newest epoch (the search tries the newest epoch first
+	// and returns with that hit while the searches of the two older epochs are still running), then the two older
+	// epochs are removed by configuration path, as --watch does when their files disappear.
+	all := append(append([]*cargen.Epoch{}, w.stable...), w.volatile...)
+	sort.Slice(all, func(i, j int) bool { return all[i].Num < all[j].Num })
+	three := all[len(all)-3:]
+	stop := time.Now().Add(time.Duration(vfh.EnvInt("VF_C09_PROBE_S", 60)) * time.Second)
+	var wg sync.WaitGroup
+	var rounds atomic.Int64
+	for g := 0; g < 16; g++ {
+		wg.Add(1)
+		go func(g int) {
+			defer wg.Done()
+			for i := 0; time.Now().Before(stop); i++ {
+				m := NewMultiEpoch(&Options{EpochSearchConcurrency: 1 + (i+g)%3})
+				cache := vfNewCache()
+				for _, ep := range three {
+					e, err := w.envs[ep.Num].Load(cache)
+					if err != nil {
+						return
+					}
+					m.AddEpoch(ep.Num, e)
+				}
+				h := newMultiEpochHandler(m, nil)
+				newest := three[len(three)-1]
+				tx := newest.Txs[(i+g)%len(newest.Txs)]
+				vfCallRaw0(h, "POST", "/", []byte(fmt.Sprintf(`{"jsonrpc":"2.0","id":1,"method":"getTransaction","params":[%q,{"encoding":"base64"}]}`, tx.Sig.String())))
+				m.RemoveEpochByConfigFilepath(w.envs[three[0].Num].ConfigPath)
+				m.RemoveEpochByConfigFilepath(w.envs[three[1].Num].ConfigPath)
+				rounds.Add(1)
+				vfQuiesce()
+				m.Close()
+			}
+		}(g)
+	}
+	wg.Wait()
+	fmt.Printf("VF-PROBE rounds=%d\n", rounds.Load())
+	fmt.Println("VF-PROBE survived")
+}
+
+// vfC09probeClose runs the probe in a child process and reports whether the server process died of a memory fault.
+func vfC09probeClose() (reproduced bool, detail string) {
+	cmd := exec.Command(os.Args[0], "-test.run", "^TestVfC09CloseProbe$", "-test.count=1", "-test.timeout", "300s")
+	cmd.Env = append(os.Environ(), "VF_C09_PROBE=1")
+	out, _ := cmd.CombinedOutput()
+	s := string(out)
+	if strings.Contains(s, "VF-PROBE survived") {
+		return false, "the probe ran to its end"
+	}
+	for _, sig := range []string{"unexpected fault address", "fatal error: fault", "SIGSEGV", "SIGBUS"} {
+		if i := strings.Index(s, sig); i >= 0 {
+			// keep the first frames of the faulting goroutine
+			return true, vfh.Short(s[i:], 1200)
+		}
+	}
+	return false, "the probe ended without a verdict: " + vfh.Short(s, 400)
+}
+
 func TestVfC09Stress(t *testing.T) {
 	run := vfh.Begin("C09", "stress")
 	defer run.End(t)
@@ -460,6 +533,18 @@ func TestVfC09Stress(t *testing.T) {
 		t.Fatalf("harness: %v", err)
 	}
 	run.Require("class:A", "class:B", "overlap", "one-stable-epoch")
+	// Open finding (known_findings.json): an epoch closed under reads that are still in flight faults the process.
+	// The stress programs exclude that class by construction (class B readers address only stable epochs by slot);
+	// shard 0 probes it in a child process and reports it only while it still reproduces.
+	if shard, _ := vfh.Shard(); shard == 0 && vfh.KnownOpen("C09", "epoch-closed-under-inflight-read") {
+		if ok, detail := vfC09probeClose(); ok {
+			run.KnownFinding("epoch-closed-under-inflight-read", "getTransaction queries to an epoch that stays loaded crash the server (memory fault in a read of an unmapped index file) when another epoch is replaced / removed by configuration path while their epoch search is still running on it (reproduced in this run in a child process)")
+			run.Note("known_finding_probe", detail)
+			run.Excluded("queries that consult an epoch while it is being closed (known finding epoch-closed-under-inflight-read)")
+		} else {
+			run.Note("known_finding_probe", "NOT reproduced: "+detail)
+		}
+	}
 	lastInput := filepath.Join(os.Getenv("VERIF_TMP"), "last-input.json")
 	os.MkdirAll(filepath.Dir(lastInput), 0o755)
 	for _, p := range vfh.ReplayFiles("C09", "stress") {
